@@ -148,12 +148,12 @@ PROPS = {
     ),
     'C15': dict(
         contract_files=['contracts/poller.py'],
-        level='bounded',
-        trusted_base=COMMON_TRUSTED,
+        level='proof',
+        trusted_base=COMMON_TRUSTED + ['threading.Event() returns a fresh object'],
         uncovered=['start-up order (initModule / startModule / interfaces) and shutdown in reverse order across server, secnode and'
-                   ' modules: a whole-history ordering over several threads, no sequential contract expresses it; only the poll thread'
-                   ' part (configured writes and initial reads of every handled module before the first poll, start-up callback once)'
-                   ' is evaluated by the bounded stand-in'],
+                   ' threads: a whole-history ordering over several threads, no sequential contract expresses it; proved is only that'
+                   ' initModule hands every module that is polled or has configured values to a poll thread; that this thread writes the'
+                   ' configured values and does the initial reads of every handled module before the first poll is the bounded stand-in'],
         bounded=[CB('poller-contracts', 'contracts/poller.py', 'gens_poller', budget=120)],
     ),
     'C07': dict(
